@@ -393,13 +393,12 @@ func genC08(cs *CaseSet, rng *Rng, tier string, dir string) {
 				typ, creator, mtime = ib[4:8], ib[8:12], ib[52:60]
 			}
 			cs.Add(Case{Kind: fmt.Sprintf("download-info%v-rsrc%v-preview%v-resume%v", hasInfo, hasRsrc, preview, resuming),
-				Ops: []Op{mkOp(10, "download", []byte(name), data, be32(off), b1(resuming), b1(preview), b1(hasInfo), info, b1(hasRsrc), rsrc, typ, creator, mtime)},
-				Obs: [][][]byte{append([][]byte{xfer, fsz}, splitDownload(stream, preview, fsz)...)},
+				Ops:        []Op{mkOp(10, "download", []byte(name), data, be32(off), b1(resuming), b1(preview), b1(hasInfo), info, b1(hasRsrc), rsrc, typ, creator, mtime)},
+				Obs:        [][][]byte{append([][]byte{xfer, fsz}, splitDownload(stream, preview, fsz)...)},
 				NonTrivial: size > 0 && (off > 0 || hasInfo || hasRsrc || len(name) > 1 || preview)})
 		}
 	}
 }
-
 
 // splitDownload cuts a download stream the way a client does: the flattened file header up to the data fork
 // (its length comes from the header's own INFO-fork size field), then as many data bytes as the reply's file
